@@ -5,6 +5,8 @@ import (
 	"os"
 	"os/exec"
 	"strings"
+	"sync"
+	"sync/atomic"
 	"time"
 
 	"github.com/IBM/fluent-forward-go/fluent/client"
@@ -132,6 +134,114 @@ func init() {
 	suites["wsgate"] = func(o *Out, r *Rng, n int, tier string) {
 		for _, s := range []string{"senddis", "sendrawdis", "listendis", "listenrec"} {
 			o.emit("C17", "WSG", s)
+		}
+	}
+}
+
+// WSCONC <seed> => bad=<n> …   goroutines calling Connect / Disconnect / Reconnect / Send / SendRaw on one WSClient at random
+func init() {
+	ops["WSCONC"] = func(a []string) string {
+		if os.Getenv("FV_CHILD") == "" {
+			cmd := exec.Command(os.Args[0], "replay")
+			cmd.Env = append(os.Environ(), "FV_CHILD=1")
+			cmd.Stdin = strings.NewReader("1 - WSCONC " + a[0] + "\n")
+			done := make(chan struct{})
+			var out, errb strings.Builder
+			cmd.Stdout, cmd.Stderr = &out, &errb
+			go func() { _ = cmd.Run(); close(done) }()
+			select {
+			case <-done:
+			case <-time.After(90 * time.Second):
+				_ = cmd.Process.Kill()
+				return "bad=1 deadlock-or-hang"
+			}
+			if strings.Contains(errb.String(), "DATA RACE") {
+				fmt.Fprint(os.Stderr, errb.String()) // hand race reports up to bin/check
+			}
+			s := out.String()
+			if i := strings.Index(s, " => "); i >= 0 {
+				return strings.TrimSpace(strings.Split(s[i+4:], "\n")[0])
+			}
+			if strings.Contains(errb.String(), "nil pointer dereference") {
+				return "bad=1 crash-nil-pointer-dereference"
+			}
+			return "bad=1 crash"
+		}
+		seed := uint64(atoi64(a[0]))
+		f := &wsFactory{next: "ok;ok"}
+		c := client.NewWS(client.WSConnectionOptions{Factory: f, ConnectionOptions: ws.ConnectionOptions{CloseDeadline: 50 * time.Millisecond}})
+		client.VerifAt = nil
+		var wg sync.WaitGroup
+		var panics int32
+		for g := 0; g < 5; g++ {
+			wg.Add(1)
+			go func(g int) {
+				defer wg.Done()
+				defer func() {
+					if p := recover(); p != nil {
+						atomic.AddInt32(&panics, 1)
+					}
+				}()
+				r := &Rng{s: seed + uint64(g)*7919}
+				for j := 0; j < 60; j++ {
+					switch r.Intn(6) {
+					case 0:
+						_ = c.Connect()
+					case 1:
+						_ = c.Disconnect()
+					case 2:
+						_ = c.Reconnect()
+					case 3:
+						_ = c.SendRaw([]byte{0xc0})
+					default:
+						_ = c.Send(&protocol.Message{Tag: "t", Timestamp: 1, Record: map[string]interface{}{"k": "v"}})
+					}
+				}
+			}(g)
+		}
+		wg.Wait()
+		_ = c.Disconnect()
+		time.Sleep(100 * time.Millisecond)
+		bad := 0
+		detail := ""
+		if panics > 0 {
+			bad++
+			detail += " panic"
+		}
+		f.mu.Lock()
+		for _, cn := range f.conns {
+			cn.mu.Lock()
+			if cn.maxInRead > 1 {
+				bad++
+				detail += " two-readers-on-one-connection"
+			}
+			if cn.maxInWrite > 1 {
+				bad++
+				detail += " two-writers-on-one-connection"
+			}
+			if cn.closes > 1 {
+				bad++
+				detail += fmt.Sprintf(" conn%d-closed-%d-times", cn.id, cn.closes)
+			}
+			nclose := 0
+			for _, fr := range cn.frames {
+				if strings.HasPrefix(fr, "8:") {
+					nclose++
+				}
+			}
+			if nclose > 1 {
+				bad++
+				detail += " two-close-frames"
+			}
+			cn.mu.Unlock()
+		}
+		n := len(f.conns)
+		f.mu.Unlock()
+		return fmt.Sprintf("bad=%d conns=%d%s", bad, n, detail)
+	}
+	suites["wsconc"] = func(o *Out, r *Rng, n int, tier string) {
+		for i := 0; i < n; i++ {
+			o.emit("C17", "WSCONC", itoa(int64(r.Intn(1000000))))
 		}
 	}
 }
